@@ -705,9 +705,9 @@ func propC12() *Prop {
 			for i, n := range []string{"pool cleanup || Put", "pool Get || Get", "pool Put || Shutdown"} {
 				js = append(js, threadJob(lbJob("C12/pair["+n+" (real constructor)]", "VerifC20Concurrent", int64(i)), int(tierPick(tier, 2, 3))))
 			}
-			js = append(js, threadJob(lbJob("C12/pair[health-check tick || Stop]", "VerifC19Stop", 0, 1), int(tierPick(tier, 2, 3))))
-			js = append(js, threadJob(lbJob("C12/pair[Stop || Stop]", "VerifC19Stop", 1, 1), int(tierPick(tier, 2, 3))))
-			js = append(js, threadJob(lbJob("C12/Stop; late tick; Stop", "VerifC19Stop", 2, 1), 1))
+			js = append(js, threadJob(lbJob("C12/pair[health-check tick || Stop]", "VerifC19Stop", 0, 1, 1), int(tierPick(tier, 2, 3))))
+			js = append(js, threadJob(lbJob("C12/pair[Stop || Stop]", "VerifC19Stop", 1, 1, 0), int(tierPick(tier, 2, 3))))
+			js = append(js, threadJob(lbJob("C12/Stop; late tick; Stop", "VerifC19Stop", 2, 1, 0), 1))
 			js = append(js, threadJob(job("C12/pair[breaker Execute x2 at the open->half-open boundary]", "circuitbreaker", "VerifC07Concurrent", 2), 2))
 			return js
 		},
@@ -726,14 +726,19 @@ func propC19() *Prop {
 		Jobs: func(tier string) []*sym.Job {
 			var js []*sym.Job
 			for n := int64(1); n <= tierPick(tier, 2, 2); n++ {
-				js = append(js, threadJob(lbJob(fmt.Sprintf("C19/tick-racing-Stop[N=%d]", n), "VerifC19Stop", 0, n), int(tierPick(tier, 2, 3))))
+				for ticks := int64(0); ticks <= tierPick(tier, 1, 2); ticks++ {
+					if n == 2 && ticks > tierPick(tier, 0, 1) {
+						continue
+					}
+					js = append(js, threadJob(lbJob(fmt.Sprintf("C19/health-check-goroutine-racing-Stop[N=%d,ticks<=%d]", n, ticks), "VerifC19Stop", 0, n, ticks), int(tierPick(tier, 2, 3))))
+				}
 			}
-			js = append(js, threadJob(lbJob("C19/Stop-racing-Stop", "VerifC19Stop", 1, 1), int(tierPick(tier, 2, 3))))
-			js = append(js, threadJob(lbJob("C19/Stop-then-late-tick-then-Stop[N=2]", "VerifC19Stop", 2, 2), 1))
+			js = append(js, threadJob(lbJob("C19/Stop-racing-Stop", "VerifC19Stop", 1, 1, 0), int(tierPick(tier, 2, 3))))
+			js = append(js, threadJob(lbJob("C19/Stop-then-late-tick-then-Stop[N=2]", "VerifC19Stop", 2, 2, 0), 1))
 			return js
 		},
-		Assumptions: append([]string{"claimed for the balancer side only: LoadBalancer.Stop, the health-check tick body (checkBackendsHealth) with its probe goroutines, and the WebSocket pool's Shutdown; http.Server.Shutdown, request draining, signals and the shutdown-timeout bound are net/http / OS and not encodable", "performHealthCheck is replaced by a stub that counts the probe, yields and fails like a refused connection (natively the real probe dials 127.0.0.1:1); the balancer context is a cancellable-context model"}, commonAssumptions...),
+		Assumptions: append([]string{"claimed for the balancer side only: LoadBalancer.Stop, the real health-check goroutine (startHealthChecks -> startActiveHealthChecks: initial round, ticker loop, probe goroutines; the ticker fires at most `ticks` times, at any point of the schedule, and a select with several ready cases picks any of them), and the WebSocket pool's Shutdown; http.Server.Shutdown, request draining, signals and the shutdown-timeout bound are net/http / OS and not encodable", "performHealthCheck is replaced by a stub that counts the probe, yields and fails like a refused connection (natively the real probe dials 127.0.0.1:1); the balancer context is a cancellable-context model"}, commonAssumptions...),
 		Bounds:  map[string]string{"quick": "1-2 backends, 2 idle pooled connections, 2 top-level threads + probe goroutines, <= 2 pre-emptions", "thorough": "<= 3 pre-emptions"},
-		Outside: []string{"http.Server.Shutdown / in-flight client requests / SIGTERM handling", "the ticker loop itself (its body is called directly)"},
+		Outside: []string{"http.Server.Shutdown / in-flight client requests / SIGTERM handling", "more than 1 (quick) / 2 (thorough) ticker firings during shutdown"},
 	}
 }
